@@ -1586,6 +1586,9 @@ pub fn run_plan(plan: &Plan, keep_events: bool) -> RunReport {
         if let Op::Deliver { fault, .. } = op {
             s.push_str(crate::wire::fault_name(fault));
         }
+        if let Op::Arith { heights, .. } = op {
+            s.push_str(&format!("{:?}", heights));
+        }
         s.push(',');
     }
     for (k, _) in &w.rep.stats.fault_fired {
